@@ -40,6 +40,31 @@ impl Provenance {
             other => Provenance::Field(Box::new(other.clone()), index),
         }
     }
+
+    /// Whether this provenance refers to the variable `name`: directly, as the root of a field
+    /// path, or in an element of a tuple.
+    pub fn mentions_variable(&self, name: &str) -> bool {
+        match self {
+            Provenance::Variable(variable) => variable == name,
+            Provenance::Field(parent, _) => parent.mentions_variable(name),
+            Provenance::Tuple(fields) => fields.iter().any(|field| field.mentions_variable(name)),
+            Provenance::Parameter | Provenance::Unknown => false,
+        }
+    }
+
+    /// Drop every reference to the variable `name`, leaving `Unknown` in its place. Provenance
+    /// names a variable, not a binding, so it must be cut when the name is bound again.
+    pub fn forget_variable(&mut self, name: &str) {
+        match self {
+            Provenance::Tuple(fields) => {
+                for field in fields {
+                    field.forget_variable(name);
+                }
+            }
+            other if other.mentions_variable(name) => *other = Provenance::Unknown,
+            _ => {}
+        }
+    }
 }
 
 /// Type narrowings in effect within a scope.
